@@ -206,16 +206,23 @@ func (g *FnGen) evalIdent(env *Env, name string) SVal {
 	}
 	// locals (loop invariants)
 	if env.at != nil {
-		for _, in := range env.at.Instrs {
-			phi, ok := in.(*ssa.Phi)
-			if !ok {
-				break
+		for _, blk := range g.fn.Blocks {
+			if blk != env.at && !blk.Dominates(env.at) {
+				continue
 			}
-			if phi.Comment == name {
-				if t, ok := env.phiOverride[phi]; ok {
-					return SVal{t, phi.Type()}
+			for _, in := range blk.Instrs {
+				phi, ok := in.(*ssa.Phi)
+				if !ok {
+					break
 				}
-				return SVal{g.vals[phi], phi.Type()}
+				if phi.Comment == name {
+					if t, ok := env.phiOverride[phi]; ok {
+						return SVal{t, phi.Type()}
+					}
+					if t, ok := g.vals[phi]; ok {
+						return SVal{t, phi.Type()}
+					}
+				}
 			}
 		}
 		var best *debugRef
@@ -534,6 +541,29 @@ func (g *FnGen) evalCall(env *Env, x *ECall) SVal {
 			}
 		}
 		env.fail("no iterator for loop %d", k)
+	case "ncalls":
+		ck := "Calls:" + x.Args[0].(*EStr).V
+		w.heapSort[ck] = "Int"
+		return SVal{g.hget(env.st, ck), intT}
+	case "lastarg":
+		i := 0
+		fmt.Sscanf(x.Args[1].(*EInt).V, "%d", &i)
+		ak := fmt.Sprintf("CallArg%d:%s", i, x.Args[0].(*EStr).V)
+		if _, ok := w.heapSort[ak]; !ok {
+			w.heapSort[ak] = "Int"
+		}
+		return SVal{g.hget(env.st, ak), nil}
+	case "recovered":
+		w.heapSort["recovered"] = "Bool"
+		return SVal{g.hget(env.st, "recovered"), boolT}
+	case "deref":
+		a := arg(0)
+		pt, ok := types.Unalias(a.T).Underlying().(*types.Pointer)
+		if !ok {
+			env.fail("deref of non-pointer")
+		}
+		key, srt := w.cellKey(pt.Elem())
+		return SVal{Term{fmt.Sprintf("(select %s %s)", g.hget(env.st, key).S, a.S), srt}, pt.Elem()}
 	case "panicking":
 		w.heapSort["panicking"], w.heapSort["panicval"] = "Bool", "Int"
 		return SVal{g.hget(env.st, "panicking"), boolT}
